@@ -793,7 +793,7 @@ class Application():
             app.set_route('/use/post', user_create, METHOD_POST)
         """
         if re_filter.search(uri):
-            r_uri = re_filter.sub(self.__regex, uri) + '$'
+            r_uri = re_filter.sub(self.__regex, uri) + r'\Z'
             converters = tuple((g[0], self.__converter(g[1]))
                                for g in (m.groups()
                                          for m in re_filter.finditer(uri)))
@@ -813,7 +813,7 @@ class Application():
         for each method state.
         """
         if re_filter.search(uri):
-            r_uri = re_filter.sub(self.__regex, uri) + '$'
+            r_uri = re_filter.sub(self.__regex, uri) + r'\Z'
             return self.pop_regular_route(r_uri, method)
 
         handlers = self.__handlers.get(uri, {})
@@ -825,7 +825,7 @@ class Application():
     def is_route(self, uri: str):
         """Check if uri have any registered record."""
         if re_filter.search(uri):
-            r_uri = re_filter.sub(self.__regex, uri) + '$'
+            r_uri = re_filter.sub(self.__regex, uri) + r'\Z'
             return self.is_regular_route(r_uri)
         return uri in self.__handlers
 
